@@ -13,7 +13,7 @@
 #include <sys/syscall.h>
 #include <stdarg.h>
 #define FAKE 1000
-static int closed_log[256], nclosed;
+static int closed_log[8192], nclosed;
 /* every uv__close() made by stream.c goes through here (uv__close ends in a raw syscall, so it
  * cannot be interposed at link level) */
 #define uv__close c07_close
@@ -21,7 +21,7 @@ static int closed_log[256], nclosed;
 #undef uv__close
 int uv__close(int fd);
 int c07_close(int fd) {
-  if (fd >= FAKE) { if (nclosed < 256) closed_log[nclosed++] = fd - FAKE; return 0; }
+  if (fd >= FAKE) { if (nclosed < 8192) closed_log[nclosed++] = fd - FAKE; return 0; }
   return uv__close(fd);
 }
 
